@@ -303,20 +303,21 @@ def run(ctx):
             if e["fired"]:
                 seen["fired@" + e["e"]] = seen.get("fired@" + e["e"], 0) + 1
     ctx.extra["outcomes_seen"] = seen
-    need = ["add/ok/none", "add/RuntimeError/none", "add/ValueError/none", "add/KeyError/none", "disown/ok/none", "disown/ok/deferred",
-            "disown/ValueError/none", "stop/ok/deferred", "setname/RuntimeError/none", "get/KeyError/none", "get/ok/none",
-            "fired@fire", "fired@stop", "fired@disown"]
-    missing = [k for k in need if not seen.get(k)]
-    if missing:
-        from harness.core import MachineryError
-        raise MachineryError("vacuity: outcomes never produced by the real code in this run: %s" % missing)
-
     rej = ctx.validate("ServicesTrace", traces, shard_size=1500)
     for x in rej[:10]:
         t = traces[x.idx]
         e = t["ev"][x.reached] if x.reached < len(t["ev"]) else None
         ctx.violation(fingerprint(t, x), "Service/MultiService execution not explained by Services.tla at event %d: %s" % (x.reached, e),
                       dict(cfg=t["cfg"], ops=t["ops"][:x.reached + 1]))
+
+    need = ["add/ok/none", "add/RuntimeError/none", "add/ValueError/none", "add/KeyError/none", "disown/ok/none", "disown/ok/deferred",
+            "disown/ValueError/none", "stop/ok/deferred", "setname/RuntimeError/none", "get/KeyError/none", "get/ok/none",
+            "fired@fire", "fired@stop", "fired@disown"]
+    missing = [k for k in need if not seen.get(k)]
+    if missing and not rej:     # (a disagreement is reported as such, not as a vacuity failure)
+        from harness.core import MachineryError
+        raise MachineryError("vacuity: outcomes never produced by the real code in this run: %s" % missing)
+
 
     def mutate(t, rng):
         i = rng.randrange(len(t["ev"]))
@@ -338,7 +339,11 @@ def run(ctx):
             return None
         return t
     bad = {x.idx for x in rej}
-    ctx.selftest_rejects("ServicesTrace", [t for i, t in enumerate(traces) if i not in bad][-300:], mutate, n=12)
+    good = [t for i, t in enumerate(traces) if i not in bad]
+    if len(good) >= 100:
+        ctx.selftest_rejects("ServicesTrace", good[-300:], mutate, n=12)
+    else:
+        ctx.log("selftest skipped: only %d accepted traces" % len(good))
 
 
 def replay(ctx, obj):
